@@ -6,7 +6,7 @@ Claimed at proof level, partial: proved for trees that span several ITERATION en
 by the correspondence run); trees that involve a SQL engine are validated by the oracle on every generated
 program.
   * `multi_engine_process_then_execute_yields_direct_rows`: for every tree of leaves, unary operations, chains,
-    transfers BETWEEN iteration engines and materializations of single-engine subtrees, nested to any depth:
+    transfers BETWEEN iteration engines (statically trivial ones included) and materializations of single-engine subtrees, nested to any depth:
     whenever `Processor.process` succeeds, the returned tree has the engine and the columns of the input and
     executing it in its final engine yields exactly the rows - values, multiplicity, order - of the direct
     evaluation of the input.  Behind it, `multi_engine_processing_invariant` (induction over the tree through the
@@ -24,7 +24,7 @@ Further theorems (machine-checked, about the model's `_process_recursive`):
     with no hook call, no payload attached and no state change - processing is idempotent on its own results;
   * `single_engine_tree_is_only_annotated` / `process_then_execute_yields_direct_rows`: for every tree inside ONE
     iteration engine - leaves, any unary operations, chains, materializations nested to any depth (`Rel.PlainIter`:
-    no statically trivial materialization, no statically empty chain operand) - `process` returns the tree itself,
+    statically trivial materializations included; no statically empty chain operand) - `process` returns the tree itself,
     creates no node, leaves the payload store right (every payload it attached holds exactly the rows of the direct
     evaluation of the materialization's target: the `materialize` hook evaluates through the engine model proved
     correct for C01), and executing the tree afterwards yields exactly the rows of its direct evaluation;
@@ -211,7 +211,7 @@ private def matT : Rel := .mat 5 "m" (.unary (.sel (.fn .gt [.ref ta, .lit 0] no
 private def reg1 : Nat → Option (List Row) := fun o => if o = 5 then some (sem σ1 (.unary (.sel (.fn .gt [.ref ta, .lit 0] none)) leafP [ta])) else none
 example : matT.PlainIter e1 ∧ matT.IterOK ∧ matT.WF ∧ matT.Truthful σ1 ∧ keyDetermined σ1 matT = true ∧
     matT.RegOK σ1 reg1 ∧ StoreOK σ1 reg1 {} ∧ matT.size ≤ defaultFuel := by
-  refine ⟨⟨rfl, by decide, by decide⟩, ⟨rfl, rfl, rfl⟩, ⟨trivial, rfl, by decide⟩, ⟨?_, Nat.zero_le _, fun m hm => by cases hm⟩,
+  refine ⟨rfl, ⟨rfl, rfl, rfl⟩, ⟨trivial, rfl, by decide⟩, ⟨?_, Nat.zero_le _, fun m hm => by cases hm⟩,
     rfl, ⟨rfl, trivial⟩, StoreOK_empty σ1 reg1, by decide⟩
   intro r hr
   simp [σ1] at hr
@@ -224,7 +224,7 @@ theorem are met, and processing succeeds -/
 private def e2 : Engine := ⟨2, .iter⟩
 private def multiT : Rel := .unary (.sel (.fn .gt [.ref ta, .lit 0] none)) (.transfer 6 e2 matT) [ta]
 example : multiT.MultiIter ∧ multiT.IterOK ∧ multiT.WF ∧ multiT.markersBelow tempBase ∧ multiT.size ≤ defaultFuel := by
-  refine ⟨⟨⟨rfl, rfl, by decide, by decide⟩, rfl, by decide, by decide⟩,
+  refine ⟨⟨⟨rfl, rfl⟩, rfl⟩,
     ⟨⟨⟨rfl, rfl, rfl⟩, rfl⟩, rfl, rfl⟩, ⟨⟨trivial, rfl, by decide⟩, rfl, by decide⟩, ⟨by decide, by decide, trivial⟩,
     by decide⟩
 example : (match processTop σ1 {} {} multiT with
